@@ -597,11 +597,36 @@ func init() {
 		in.callMethod(caller, w, "Write", in.bytesToSlice(out))
 		return (*IfaceV)(nil)
 	}
-	// the xml.Decoder of an item-level reader: no further tokens
-	I["(*encoding/xml.Decoder).Skip"] = func(in *Interp, caller *frame, fn *ssa.Function, args []Value) Value { return (*IfaceV)(nil) }
+	// the xml.Decoder of an item-level reader stands just behind the start tag
+	// of the only (empty) element of its document: one EndElement, then io.EOF
+	xmlEnded := func(in *Interp, d Value) (*Cell, bool) {
+		c, _ := d.(*Cell)
+		if c == nil {
+			in.goPanic(in.runtimeError("invalid memory address or nil pointer dereference", "nil"))
+		}
+		h := in.hidden(c, "ended")
+		b, _ := h.v.(bool)
+		return h, b
+	}
+	ioEOF := func(in *Interp) Value {
+		return in.loadThrough(in.global(in.prog.ImportedPackage("io").Var("EOF")))
+	}
+	I["(*encoding/xml.Decoder).Skip"] = func(in *Interp, caller *frame, fn *ssa.Function, args []Value) Value {
+		h, ended := xmlEnded(in, args[0])
+		if ended {
+			return ioEOF(in)
+		}
+		in.set(h, true)
+		return (*IfaceV)(nil)
+	}
 	I["(*encoding/xml.Decoder).Token"] = func(in *Interp, caller *frame, fn *ssa.Function, args []Value) Value {
-		eof := in.loadThrough(in.global(in.prog.ImportedPackage("io").Var("EOF")))
-		return []Value{(*IfaceV)(nil), eof}
+		h, ended := xmlEnded(in, args[0])
+		if ended {
+			return []Value{(*IfaceV)(nil), ioEOF(in)}
+		}
+		in.set(h, true)
+		t := in.namedType("encoding/xml", "EndElement")
+		return []Value{&IfaceV{t: t, v: in.zero(t)}, (*IfaceV)(nil)}
 	}
 }
 
